@@ -24,6 +24,7 @@
   parser; covered by the exhaustive correspondence walks).
 -/
 import DnsModel.Lemmas.DeleteWalk
+import DnsModel.Tie.Counts
 import DnsModel.Lemmas.FirstTouch
 import DnsModel.Lemmas.DeleteWalkFresh
 import DnsModel.Lemmas.DeleteWalkSkip
@@ -335,5 +336,16 @@ theorem walk_delete_parsed_skipping_opt {p : Bytes} {v : View} (h : parse p = .o
 three records, the first and the third chosen -/
 example : absWalk (fun k => k == 0 || k == 2) (fuelFor 3) 0 [10, 20, 30] 0 =
     some ([20], [(10, true), (20, false), (30, true), (20, false)]) := by decide
+
+
+/-! ### Tie to the current source text: the record-count bookkeeping every insertion and deletion goes through
+(`rrcount_inc`, `rrcount_dec`, `insertion_offset` of parsed_packet.rs with the `set_*count` writers of dns_sector.rs,
+re-translated on every run: `Generated/TrCounts.lean`, `Tie/Counts.lean`) -/
+theorem source_counts_tie (pp : PP) (s : Section) :
+    (Tr.Counts.rrcount_inc pp.packet s >>= fun r => Res.ok r.2) = (rrcountInc pp s >>= Tie.incResult) ∧
+    Tr.Counts.rrcount_dec pp.packet s = (rrcountDec pp s >>= fun r => Res.ok (r.2, r.1.packet)) ∧
+    Tr.Counts.insertion_offset pp.packet pp.offsetAnswers pp.offsetNameservers pp.offsetAdditional s
+      = insertionOffset pp s :=
+  ⟨Tie.rrcount_inc_eq pp s, Tie.rrcount_dec_eq pp s, Tie.insertion_offset_eq pp s⟩
 
 end Dns.C11
